@@ -14,6 +14,9 @@ VERIF_REPO=$W ./check "$P" --tier "$TIER" > /tmp/seedrun_$$.log 2>&1; rc=$?
 v=$(grep -c '^VIOLATION' /tmp/seedrun_$$.log)
 echo "RESULT $P $(basename $D): demo_clean=$d0 demo_mutated=$d1 check_exit=$rc violations=$v"
 grep '^VIOLATION' /tmp/seedrun_$$.log | head -3
+for f in $(grep '^VIOLATION' /tmp/seedrun_$$.log | sed -n 's/.*replay=\([^ ]*\).*/\1/p' | head -6); do
+  [ -f "$f" ] && /venv/bin/python -c "import json,sys; d=json.load(open(sys.argv[1])); print('SIGNATURE', d.get('kind'), d.get('signature') or '; '.join(str(x.get('log', x))[:120] for x in d.get('no_longer_checks', [])))" "$f"
+done
 tail -2 /tmp/seedrun_$$.log | cut -c1-300
 rm -f /tmp/seedrun_$$.log
 git -C "$W" checkout -q -- . && git -C "$W" clean -fdq
